@@ -347,19 +347,19 @@ End Legacy.
 
 (** * The executable legacy entry points: every [run] starts with [parse_fuel s] *)
 Definition legacy_get_latex_nodes (s : str) (tol : bool) (cx : context) :=
-  legacy_get_latex_nodes_f s tol cx (parse_fuel s).
+  legacy_get_latex_nodes_f s tol cx (parse_fuel s cx).
 Definition legacy_get_latex_expression (s : str) (tol : bool) (cx : context) :=
-  legacy_get_latex_expression_f s tol cx (parse_fuel s).
+  legacy_get_latex_expression_f s tol cx (parse_fuel s cx).
 Definition legacy_get_latex_braced_group (s : str) (tol : bool) (cx : context) :=
-  legacy_get_latex_braced_group_f s tol cx (parse_fuel s).
+  legacy_get_latex_braced_group_f s tol cx (parse_fuel s cx).
 Definition legacy_get_latex_environment (s : str) (tol : bool) (cx : context) :=
-  legacy_get_latex_environment_f s tol cx (parse_fuel s).
+  legacy_get_latex_environment_f s tol cx (parse_fuel s cx).
 Definition legacy_get_latex_maybe_optional_arg (s : str) (tol : bool) (cx : context) :=
-  legacy_get_latex_maybe_optional_arg_f s tol cx (parse_fuel s).
+  legacy_get_latex_maybe_optional_arg_f s tol cx (parse_fuel s cx).
 Definition legacy_args_loop (s : str) (tol : bool) (cx : context) :=
-  legacy_args_loop_f s tol cx (parse_fuel s).
+  legacy_args_loop_f s tol cx (parse_fuel s cx).
 Definition legacy_parse_args (s : str) (tol : bool) (cx : context) :=
-  legacy_parse_args_f s tol cx (parse_fuel s).
+  legacy_parse_args_f s tol cx (parse_fuel s cx).
 
 (** * The specification spellings *)
 
